@@ -1,6 +1,7 @@
 package inactivity
 
 import (
+	"time"
 	"unsafe"
 
 	"go.uber.org/atomic"
@@ -25,6 +26,19 @@ func NewKeepAlive[C Conn](maxRetries uint32, onInactive OnInactiveFunc[C], sendP
 		sendPing:   sendPing,
 		onInactive: onInactive,
 	}
+}
+
+// NewKeepAliveMonitor creates an inactivity monitor that runs keepalive after every
+// duration without a received message. Any received message - not only the pong of the
+// current ping - proves that the peer is alive and resets the count of failed pings.
+func NewKeepAliveMonitor[C Conn](duration time.Duration, keepalive *KeepAlive[C]) *Monitor[C] {
+	m := &Monitor[C]{
+		duration:   duration,
+		onInactive: keepalive.OnInactive,
+		onActivity: keepalive.resetFails,
+	}
+	m.Notify()
+	return m
 }
 
 func (m *KeepAlive[C]) checkCancelPing() {
